@@ -296,11 +296,13 @@ pub fn eval_case(case: &Case, mode: &Mode, acc: &Acc) -> Vec<Violation> {
                     }
                     acc.outcome(&format!("ok={} in_lang={} recovery_disabled={}", o.ok, in_lang, rec_dis));
                 }
-                if mode.c02 && o.ok && in_lang {
+                // every *successful* parse must deliver a derivation tree of its input (for an input that is
+                // not a sentence no such tree exists, so a wrongly successful parse is reported here too)
+                if mode.c02 && o.ok {
                     if let Some(pe) = &o.protocol_error {
                         out.push(vio("tree_protocol", format!("{} | input {:?}: tree builder protocol error: {pe}", g.short(), text), case, w, json!({"input": text})));
                     } else {
-                        let toks: Vec<String> = w.iter().map(|t| g.term_text[*t as usize].clone()).collect();
+                        let toks: Vec<String> = w.iter().map(|t| g.term_text.get(*t as usize).cloned().unwrap_or_else(|| "x".to_string())).collect();
                         match check_derivation(o.tree.as_ref().unwrap(), &o.events, &bnf, &start, &toks) {
                             Ok(napps) => acc.outcome(&format!("derivation_ok apps={}", napps.min(12))),
                             Err(m) => out.push(vio(
